@@ -15,7 +15,7 @@
  *    only then the data pointer is re-homed to a private exact-size copy (the library's
  *    slice aliases the source's memory; a private copy keeps later ops on the source from
  *    invalidating it and makes reads beyond the slice visible to ASan).
- *  - alarm() per case: a hang (make_room's doubling loop on an unrepaired tree) ends the
+ *  - CPU-time timer (1 s) + alarm() per case: a hang (make_room's doubling loop on an unrepaired tree) ends the
  *    process with `TIMEOUT`, which the check reports as a crash line.
  */
 #include <stdlib.h>
@@ -26,6 +26,7 @@
 #include <limits.h>
 #include <signal.h>
 #include <unistd.h>
+#include <sys/time.h>
 
 static void *h_realloc(void *ptr, size_t n);
 #define realloc(p, n) h_realloc((p), (n))
@@ -195,6 +196,17 @@ static void on_alarm(int sig)
 	_exit(3);
 }
 
+/* per case: 1 s of CPU time (a hang burns CPU; robust against a loaded machine) and 30 s
+ * of wall time as a fallback */
+static void arm_timers(void)
+{
+	struct itimerval it;
+	memset(&it, 0, sizeof(it));
+	it.it_value.tv_sec = 1;
+	setitimer(ITIMER_PROF, &it, NULL);
+	alarm(30);
+}
+
 #define BAD() do { puts("bad-op"); goto next; } while (0)
 
 int main(void)
@@ -204,6 +216,7 @@ int main(void)
 	int n;
 
 	signal(SIGALRM, on_alarm);
+	signal(SIGPROF, on_alarm);
 	reset_all();
 	while ((line = hc_line()) != NULL) {
 		int i, j;
@@ -215,7 +228,7 @@ int main(void)
 		ora_flag = 0;
 		n = hc_words(line, w, 8);
 		if (n == 1 && strcmp(w[0], "#case") == 0) {
-			alarm(20);
+			arm_timers();
 			reset_all();
 			puts("#case");
 			continue;
